@@ -487,6 +487,36 @@ def history_stream(ctx: Ctx, scratch: pathlib.Path) -> None:
         shutil.rmtree(out, ignore_errors=True)
 
 
+
+def subprocess_stream(ctx: Ctx, scratch: pathlib.Path) -> None:
+    """The real process exit status: `python -m aas_core_codegen` and the console-script entry point."""
+    import subprocess
+
+    valid = next(c for c in fixture_cases(1) if c[0] == "valid" and c[2] == "jsonschema")
+    _, model, target, snippets = valid
+    bad = scratch / "sub_bad.py"
+    bad.write_text("class A(:\n")
+    env = dict(os.environ, PYTHONPATH=str(REPO), TMPDIR=str(scratch / "tmp"))
+    (scratch / "tmp").mkdir(exist_ok=True)
+    launchers = [
+        ("module", [sys.executable, "-m", "aas_core_codegen"]),
+        ("entry_point", [sys.executable, "-c", "import sys, aas_core_codegen.main as m; sys.argv[0] = 'aas-core-codegen'; sys.exit(m.entry_point())"]),
+    ]
+    for lname, launcher in launchers:
+        for case, mp in (("valid", model), ("missing-model", scratch / "nope.py"), ("syntax-error", bad)):
+            out = scratch / f"sub_{lname}_{case}"
+            proc = subprocess.run(
+                launcher + ["--model_path", str(mp), "--snippets_dir", str(snippets), "--output_dir", str(out), "--target", target],
+                env=env, stdout=subprocess.PIPE, stderr=subprocess.PIPE, timeout=600,
+            )
+            res = {"rc": proc.returncode, "stdout": proc.stdout.decode(), "stderr": proc.stderr.decode(), "exc": None, "sites": [], "out": str(out)}
+            ctx.count(("subprocess", lname, case), nontrivial=True, stream="cli-subprocess")
+            ctx.hit(f"subprocess:{lname}:{case}:rc={proc.returncode}")
+            for sig, what in judge(res):
+                ctx.fail({"kind": "subprocess", "launcher": lname, "case": case}, what, sig + ":process:" + lname)
+            shutil.rmtree(out, ignore_errors=True)
+
+
 def oracle(ctx: Ctx) -> None:
     scratch = ctx.scratch()
     kinds: Dict[str, int] = {}
@@ -512,6 +542,7 @@ def oracle(ctx: Ctx) -> None:
     ctx.extra_cov["cli_runs"] = kinds
     pair_stream(ctx, scratch)
     history_stream(ctx, scratch)
+    subprocess_stream(ctx, scratch)
 
 
 def replay(ctx: Ctx, data: Dict[str, Any]) -> Any:
